@@ -8,6 +8,7 @@ import (
 	"encoding/hex"
 	"encoding/json"
 	"fmt"
+	"io"
 	"os"
 	"path/filepath"
 	"sort"
@@ -15,6 +16,9 @@ import (
 	"strings"
 	"sync"
 	"time"
+
+	"go.uber.org/zap"
+	"go.uber.org/zap/zapcore"
 )
 
 // Run is one invocation of one property's check.
@@ -231,4 +235,13 @@ func LoadReplay(path string, v any) (key string, err error) {
 		return "", err
 	}
 	return w.Key, json.Unmarshal(w.Replay, v)
+}
+
+// DebugLogger returns a logger at debug level whose output is discarded after it has been fully encoded: the
+// code under test then runs every logging statement it has (field evaluation included), as it does with
+// --log-level debug. Harnesses use it instead of a nil or no-op logger.
+func DebugLogger() *zap.SugaredLogger {
+	enc := zapcore.NewJSONEncoder(zap.NewProductionEncoderConfig())
+	core := zapcore.NewCore(enc, zapcore.AddSync(io.Discard), zapcore.DebugLevel)
+	return zap.New(core).Sugar()
 }
